@@ -200,3 +200,27 @@ CHECKS["C19"] = dict(
         level_note="Trusts the validator's reading of the five message formats and the snapshot of private channel state.",
     ),
 )
+
+CHECKS["C11"] = dict(
+    harnesses={"grid": dict(src="c11_volume.cpp", cfg="fast", kind="plain")},
+    quick=[dict(name="grid", harness="grid", workers=16, args=["--grid", "quick"])],
+    thorough=[dict(name="grid", harness="grid", workers=16, args=["--grid", "full"], timeout=14400)],
+    rule="enumeration through the public API (note-on, CC7, CC11, CC74, master-volume SysEx, volume-model / modulator-scaling / full-range-brightness setters) of "
+         "velocity x CC7 x CC11 for master volume in {0,1,64,127}, all 5 volume models x 8 FM algorithms x 3 instrument TL sets x modulator scaling on/off "
+         "(quick: 31x32x32 boundary-biased sub-grid + full single-axis lines; thorough: the full 127x128x128 grid), plus master volume 0..127 and brightness 0..127 "
+         "lines in both brightness modes. Oracle on the 0x40-0x4F register writes seen by the tap: range, carrier monotonicity along every axis, silence at zero, "
+         "modulators untouched / never brighter. Non-trivial = a grid point whose written TL differs from both 127 and the instrument's TL (distinct by construction).",
+    assumptions=[
+        "carriers per algorithm are taken from the YM2612 manual (slot order S1,S3,S2,S4 in the register map)",
+        "controller values stay within 0..127 (the MIDI data range named by the property); instrument TL bytes are 7-bit",
+        "velocity 0 is a note-off and belongs to C05",
+    ],
+    min_nontrivial={"quick": 100000, "thorough": 1000000},
+    manifest=dict(
+        engine="bounded-exhaustive enumeration",
+        technique="bounded-exhaustive grid enumeration through the public API with a monotonicity/range/silence oracle on tapped register writes",
+        level_text="The property's own finite quantifier is enumerated: completely in the thorough tier (exhaustive flag set), as a boundary-biased sub-grid plus full "
+                   "axis lines in the quick tier. Every written total-level byte is checked for range; monotonicity is checked between all axis neighbours.",
+        level_note="Trusts the register tap and the carrier table from the chip manual; instrument TL sets are 3 representatives, not all 128^4.",
+    ),
+)
